@@ -104,7 +104,11 @@ class BaseClient:
             device = self.get_device(msg.device)
 
         if isinstance(msg, message.DelProperty):
-            device = self.get_device(msg.device)
+            if msg.name is None:
+                if msg.device in self.devices:
+                    del self.devices[msg.device]
+            else:
+                device = self.get_device(msg.device)
 
         if device:
             device.process_message(msg)
